@@ -1762,7 +1762,11 @@ class Rule(metaclass=LogicalType):
             if not cls.__abstract__ and type(value) != cls.__origin__:
                 # for abstract types (like Sequence / Iterable)
                 # we just give an instance that satisfy those abstract methods (like a list instance)
-                value = cls.__origin__(value)
+                try:
+                    value = cls.__origin__(value)
+                except Exception as e:
+                    # e.g. Set[List[int]]: the parsed items are not hashable
+                    raise exc.ParseError(value=value, type=cls.__origin__, origin_exc=e) from e
 
         if not options.ignore_constraints:
             # if options ignore constraints, we will just do type transform
